@@ -1,4 +1,5 @@
 import PydlVerif.Model.Trace
+import PydlVerif.Model.TraceIter
 import PydlVerif.Lemmas.ScalarField
 import PydlVerif.Lemmas.Lsq
 import PydlVerif.Lemmas.Trace
@@ -906,5 +907,591 @@ example : ∃ g, (⟨"legendre", 0, 2047, #[#[1, 2]], 2, none, none, none⟩ : T
   exact ⟨g, hg, (hrow 0 (by simp)).2.2.2⟩
 end fit
 
-end PydlVerif.C13
 
+/-! # Extension 1/2: the iteration loop of `xy2traceset` with the real `djs_reject` inside (`Model/TraceIter.lean`),
+locality / permutation of the traces, optimum over the kept points; the FITS-record constructor -/
+
+section iter
+variable {K : Type} [Field K] [LinearOrder K] [IsStrictOrderedRing K] [FloorRing K]
+attribute [local instance] fieldScalar
+
+theorem badness_none (sqrt : K → K) (p : Reject.Pix K) :
+    Reject.isZero (Reject.badness sqrt { (rejectOpts : Reject.Opts K) with hasIn := false } p) = true := by
+  simp [Reject.badness, Reject.addLow, Reject.addUp, Reject.addDev, rejectOpts, Reject.isZero, BEq.beq, Scalar.beq]
+
+theorem rejectCall_none (sqrt : K → K) (data model ivar : Array K) (hm : model.size = data.size)
+    (hv : ivar.size = data.size) :
+    rejectCall sqrt data model ivar = .ok (Array.replicate data.size true, true) := by
+  unfold rejectCall Reject.djsReject
+  simp only [Array.length_toList, hm, hv, ne_eq, not_true_eq_false, if_false, bind, Except.bind, pure, Except.pure,
+    Option.isSome_none]
+  unfold Reject.djsRejectPix Reject.growMask
+  simp only [List.map_map, Function.comp_def, badness_none]
+  simp [rejectOpts]
+  have hr : ∀ i : ℕ, (List.replicate data.size true)[i]?.getD true = true := by
+    intro i
+    by_cases h : i < data.size <;> simp [h]
+  simp only [hr, List.zipWith_map_right]
+  intro hmem
+  obtain ⟨i, h1, h2⟩ := List.mem_iff_getElem.mp hmem
+  simp at h2
+
+/-- sizes on a successful return of func_fit -/
+theorem funcFit_sizes (solve : Array (Array K) → Array K → R (Array K)) (inp : FitIn K) (out : FitOut K)
+    (h : funcFit solve inp = .ok out) :
+    out.yfit.size = inp.x.size ∧ inp.y.size = inp.x.size ∧ ∀ v, inp.invvar = some v → v.size = inp.x.size := by
+  obtain ⟨hy, w, ia, hw, hia, h0, h1, h2⟩ := funcFit_ok h
+  refine ⟨?_, hy, ?_⟩
+  · match hg : goodIdx w with
+    | [] => rw [h0 hg]; simp
+    | [i0] => rw [(h1 i0 hg).2]; simp
+    | a :: b :: t =>
+      obtain ⟨legarr, ysub, sol, -, -, -, -, hyf⟩ := fitMain_ok (h2 (by rw [hg]; simp))
+      rw [hyf]; simp [yfitOf]
+  · intro v hv
+    unfold fitWeights at hw
+    rw [hv] at hw
+    dsimp only at hw
+    split at hw
+    · cases hw
+    · rename_i hs; simpa using hs
+
+theorem fitIterRej_eq (sqrt : K → K) (fit : R (FitOut K)) (y ivar : Array K)
+    (hfit : ∀ o, fit = .ok o → o.yfit.size = y.size ∧ ivar.size = y.size) :
+    ∀ fuel qdone acc, fitIterRej sqrt fit y ivar fuel qdone acc = fitIter fit y.size fuel qdone acc := by
+  intro fuel
+  induction fuel with
+  | zero => intro qdone acc; rfl
+  | succ fuel ih =>
+    intro qdone acc
+    unfold fitIterRej fitIter
+    cases qdone with
+    | true => rfl
+    | false =>
+      simp only [Bool.false_eq_true, if_false]
+      cases hf : fit with
+      | error e => rfl
+      | ok o =>
+        obtain ⟨h1, h2⟩ := hfit o hf
+        simp only [bind, Except.bind, rejectCall_none sqrt y o.yfit ivar h1 h2, rejectDefault]
+        simpa only [hf] using ih true (some (o, Array.replicate y.size true))
+
+theorem tsTempivar_size (inp : TsIn K) (i : ℕ) : (tsTempivar inp i).size = (inp.xpos.getD 0 #[]).size := by
+  unfold tsTempivar
+  cases inp.inmask <;> simp
+
+theorem tsFitRowRej_eq (sqrt : K → K) (solve : Array (Array K) → Array K → R (Array K)) (inp : TsIn K) (t0 : TSet K)
+    (i : ℕ) (hy : (inp.ypos.getD i #[]).size = (inp.xpos.getD 0 #[]).size) :
+    tsFitRowRej sqrt solve inp t0 i = tsFitRow solve inp t0 i := by
+  unfold tsFitRowRej tsFitRow
+  cases hx : t0.xnorm (inp.xpos.getD i #[]) inp.xjumplo.isSome with
+  | error e => rfl
+  | ok xvec =>
+    simp only [bind, Except.bind]
+    rw [fitIterRej_eq sqrt _ _ _ ?_, hy]
+    · rfl
+    · intro o ho
+      obtain ⟨h1, h2, h3⟩ := funcFit_sizes solve _ o ho
+      dsimp only at h1 h2 h3
+      exact ⟨by rw [h1, h2], by rw [h3 _ rfl, h2]⟩
+
+theorem mapM_congr' {β γ : Type} (F G : β → R γ) : ∀ (l : List β), (∀ a, a ∈ l → F a = G a) → l.mapM F = l.mapM G := by
+  intro l
+  induction l with
+  | nil => intro _; rfl
+  | cons a l ih =>
+    intro h
+    rw [List.mapM_cons, List.mapM_cons, h a (by simp), ih (fun b hb => h b (by simp [hb]))]
+
+omit [Field K] [LinearOrder K] [IsStrictOrderedRing K] [FloorRing K] in
+theorem ts_rows_rect (inp : TsIn K) (hs : tsShapeOk inp = true) (i : ℕ) (hi : i < inp.xpos.size) :
+    (inp.xpos.getD i #[]).size = (inp.xpos.getD 0 #[]).size ∧ (inp.ypos.getD i #[]).size = (inp.xpos.getD 0 #[]).size := by
+  unfold tsShapeOk at hs
+  simp only [Bool.and_eq_true] at hs
+  have h1 := hs.1.1.1
+  have h2 := hs.1.1.2
+  unfold rect at h1 h2
+  simp only [Bool.and_eq_true, beq_iff_eq, Array.all_eq_true] at h1 h2
+  have a := h1.2 i hi
+  have b := h2.2 i (by omega)
+  have hi2 : i < inp.ypos.size := by omega
+  exact ⟨by simpa [Array.getD, hi] using a, by simpa [Array.getD, hi2] using b⟩
+
+/-- **the loop with the real `djs_reject` is the loop of `tsetFit`** -/
+theorem tsetFitRej_eq (sqrt : K → K) (solve : Array (Array K) → Array K → R (Array K)) (inp : TsIn K) :
+    tsetFitRej sqrt solve inp = tsetFit solve inp := by
+  unfold tsetFitRej tsetFit
+  split
+  · rfl
+  rename_i hshape
+  have hs : tsShapeOk inp = true := by simpa using hshape
+  cases tsXmin inp with
+  | error e => rfl
+  | ok xmin =>
+    cases tsXmax inp with
+    | error e => rfl
+    | ok xmax =>
+      simp only [bind, Except.bind]
+      rw [mapM_congr' _ _ _ (fun i hi => tsFitRowRej_eq sqrt solve inp _ i (ts_rows_rect inp hs i (List.mem_range.mp hi)).2)]
+
+
+omit [Field K] [LinearOrder K] [IsStrictOrderedRing K] [FloorRing K] in
+theorem fitIter_mask (fit : R (FitOut K)) (n fuel : ℕ) (r : FitOut K × Array Bool)
+    (h : fitIter fit n fuel false none = .ok (some r)) : r.2 = Array.replicate n true := by
+  cases fuel with
+  | zero => simp [fitIter, pure, Except.pure] at h
+  | succ fuel =>
+    unfold fitIter at h
+    simp only [Bool.false_eq_true, if_false] at h
+    obtain ⟨o, ho, h⟩ := bind_ok h
+    simp only [rejectDefault] at h
+    cases fuel with
+    | zero => simp [fitIter, pure, Except.pure] at h; rw [← h]
+    | succ fuel => simp [fitIter, pure, Except.pure] at h; rw [← h]
+
+/-- the trace set under construction when the loop over traces runs -/
+def ts0 (inp : TsIn K) (xmin xmax : K) : TSet K :=
+  ⟨inp.func, xmin, xmax, #[], inp.ncoeff, inp.xjumplo, inp.xjumphi, inp.xjumpval⟩
+
+/-- inversion of `tsetFit` -/
+theorem tsetFit_ok (solve : Array (Array K) → Array K → R (Array K)) (inp : TsIn K) (o : TsOut K)
+    (h : tsetFit solve inp = .ok o) :
+    tsShapeOk inp = true ∧ ∃ xmin xmax, tsXmin inp = .ok xmin ∧ tsXmax inp = .ok xmax ∧
+      o.tset.xmin = xmin ∧ o.tset.xmax = xmax ∧
+      (o.tset.func = inp.func ∧ o.tset.ncoeff = inp.ncoeff ∧ o.tset.xjumplo = inp.xjumplo ∧
+        o.tset.xjumphi = inp.xjumphi ∧ o.tset.xjumpval = inp.xjumpval) ∧
+      o.tset.coeff.size = inp.xpos.size ∧ o.yfit.size = inp.xpos.size ∧ o.outmask.size = inp.xpos.size ∧
+      ∀ i, i < inp.xpos.size → tsFitRow solve inp (ts0 inp xmin xmax) i =
+        .ok (⟨o.tset.coeff.getD i #[], o.yfit.getD i #[]⟩, o.outmask.getD i #[]) := by
+  unfold tsetFit at h
+  split at h
+  · cases h
+  rename_i hshape
+  obtain ⟨xmin, hxmin, h⟩ := bind_ok h
+  obtain ⟨xmax, hxmax, h⟩ := bind_ok h
+  obtain ⟨fits, hfits, h⟩ := bind_ok h
+  cases h
+  obtain ⟨hlen, hfi⟩ := mapM_ok' _ _ _ hfits
+  rw [List.length_range] at hlen
+  refine ⟨by simpa using hshape, xmin, xmax, hxmin, hxmax, rfl, rfl, ⟨rfl, rfl, rfl, rfl, rfl⟩, by simp [hlen], by simp [hlen], by simp [hlen], ?_⟩
+  intro i hi
+  have hF := hfi i (by simpa using hi) (by omega)
+  rw [List.getElem_range] at hF
+  have hi' : i < fits.length := by omega
+  refine Eq.trans hF ?_
+  simp [Array.getD, hi']
+
+/-- **the loop is one fit**: with `maxiter ≥ 0` every trace of the result is exactly what ONE call of `func_fit`
+on the normalised positions of that trace with `tempivar = invvar * inmask` returns (the rejection step rejects
+nothing, `rejectCall_none`, and ends the loop), and the `outmask` row is all true -/
+theorem tsetFit_row_is_funcFit (solve : Array (Array K) → Array K → R (Array K)) (inp : TsIn K) (o : TsOut K)
+    (h : tsetFit solve inp = .ok o) (i : ℕ) (hi : i < inp.xpos.size) :
+    ∃ xvec, o.tset.xnorm (inp.xpos.getD i #[]) inp.xjumplo.isSome = .ok xvec ∧
+      funcFit solve { x := xvec, y := inp.ypos.getD i #[], ncoeff := inp.ncoeff, invvar := some (tsTempivar inp i),
+                      func := inp.func } = .ok ⟨o.tset.coeff.getD i #[], o.yfit.getD i #[]⟩ ∧
+      o.outmask.getD i #[] = Array.replicate (inp.xpos.getD 0 #[]).size true := by
+  obtain ⟨-, xmin, xmax, hmin, hmax, e1, e2, ⟨-, -, e3, e4, e5⟩, -, -, -, hrow⟩ := tsetFit_ok solve inp o h
+  have hF := hrow i hi
+  have hjump : o.tset.xnorm (inp.xpos.getD i #[]) inp.xjumplo.isSome =
+      (ts0 inp xmin xmax).xnorm (inp.xpos.getD i #[]) inp.xjumplo.isSome := by
+    unfold TSet.xnorm
+    rw [e1, e2, e3, e4, e5]
+    rfl
+  unfold tsFitRow at hF
+  obtain ⟨xvec, hxv, hF⟩ := bind_ok hF
+  obtain ⟨r, hr, hF⟩ := bind_ok hF
+  cases r with
+  | none => cases hF
+  | some r =>
+    have hF' : r = (⟨o.tset.coeff.getD i #[], o.yfit.getD i #[]⟩, o.outmask.getD i #[]) := by
+      simpa [pure, Except.pure] using hF
+    refine ⟨xvec, by rw [hjump, hxv], ?_, ?_⟩
+    · have := fitIter_ok _ _ _ _ hr
+      rw [hF'] at this
+      exact this
+    · have := fitIter_mask _ _ _ _ hr
+      rw [hF'] at this
+      exact this
+
+
+/-- what two inputs must share for their loops over traces to be comparable: everything except the rows -/
+structure SameSetup (inp inp' : TsIn K) : Prop where
+  func : inp'.func = inp.func
+  ncoeff : inp'.ncoeff = inp.ncoeff
+  maxiter : inp'.maxiter = inp.maxiter
+  lo : inp'.xjumplo = inp.xjumplo
+  hi : inp'.xjumphi = inp.xjumphi
+  val : inp'.xjumpval = inp.xjumpval
+  nx : (inp'.xpos.getD 0 #[]).size = (inp.xpos.getD 0 #[]).size
+  xmin : tsXmin inp' = tsXmin inp
+  xmax : tsXmax inp' = tsXmax inp
+
+/-- **every trace is fitted on its own**: the coefficients, fitted values and mask of trace `i'` of one input and of
+trace `i` of another input are identical as soon as the two inputs agree in the global settings and in the data of
+that one trace (positions, values, `invvar * inmask`) - whatever the other traces contain -/
+theorem tsetFit_row_local (solve : Array (Array K) → Array K → R (Array K)) (inp inp' : TsIn K) (o o' : TsOut K)
+    (h : tsetFit solve inp = .ok o) (h' : tsetFit solve inp' = .ok o') (hs : SameSetup inp inp')
+    (i i' : ℕ) (hi : i < inp.xpos.size) (hi' : i' < inp'.xpos.size)
+    (hx : inp'.xpos.getD i' #[] = inp.xpos.getD i #[]) (hy : inp'.ypos.getD i' #[] = inp.ypos.getD i #[])
+    (hw : tsTempivar inp' i' = tsTempivar inp i) :
+    o'.tset.coeff.getD i' #[] = o.tset.coeff.getD i #[] ∧ o'.yfit.getD i' #[] = o.yfit.getD i #[] ∧
+      o'.outmask.getD i' #[] = o.outmask.getD i #[] := by
+  obtain ⟨-, xmin, xmax, hmin, hmax, -, -, -, -, -, -, hrow⟩ := tsetFit_ok solve inp o h
+  obtain ⟨-, xmin', xmax', hmin', hmax', -, -, -, -, -, -, hrow'⟩ := tsetFit_ok solve inp' o' h'
+  have e1 : xmin' = xmin := by
+    have := hs.xmin; rw [hmin, hmin'] at this; cases this; rfl
+  have e2 : xmax' = xmax := by
+    have := hs.xmax; rw [hmax, hmax'] at this; cases this; rfl
+  subst e1 e2
+  have ht : ts0 inp' xmin' xmax' = ts0 inp xmin' xmax' := by
+    unfold ts0; rw [hs.func, hs.ncoeff, hs.lo, hs.hi, hs.val]
+  have hc : tsFitRow solve inp' (ts0 inp' xmin' xmax') i' = tsFitRow solve inp (ts0 inp xmin' xmax') i := by
+    rw [ht]
+    unfold tsFitRow
+    rw [hs.func, hs.ncoeff, hs.maxiter, hs.lo, hs.nx, hx, hy, hw]
+  have := (hrow' i' hi').symm.trans (hc.trans (hrow i hi))
+  injection this with this
+  injection this with h1 h2
+  injection h1 with h3 h4
+  exact ⟨h3, h4, h2⟩
+
+theorem sameSetup_ypos (inp : TsIn K) (yp : Array (Array K)) : SameSetup inp { inp with ypos := yp } :=
+  ⟨rfl, rfl, rfl, rfl, rfl, rfl, rfl, rfl, rfl⟩
+
+/-- **changing the values of trace `j` never changes another trace**: replace row `j` of `ypos` by anything; every
+trace `i ≠ j` keeps its coefficients, fitted values and mask -/
+theorem tsetFit_other_traces (solve : Array (Array K) → Array K → R (Array K)) (inp : TsIn K) (j : ℕ) (row : Array K)
+    (o o' : TsOut K) (h : tsetFit solve inp = .ok o)
+    (h' : tsetFit solve { inp with ypos := inp.ypos.setIfInBounds j row } = .ok o')
+    (i : ℕ) (hi : i < inp.xpos.size) (hij : i ≠ j) :
+    o'.tset.coeff.getD i #[] = o.tset.coeff.getD i #[] ∧ o'.yfit.getD i #[] = o.yfit.getD i #[] ∧
+      o'.outmask.getD i #[] = o.outmask.getD i #[] := by
+  refine tsetFit_row_local solve inp _ o o' h h' (sameSetup_ypos inp _) i i hi hi rfl ?_ rfl
+  show (inp.ypos.setIfInBounds j row).getD i #[] = inp.ypos.getD i #[]
+  simp [Ne.symm hij]
+
+/-- **permuting the traces permutes the rows of the result**: with the traces re-ordered by `σ` (row `i` of the new
+input is row `σ i` of the old one), row `i` of the new coefficients / fitted values / mask is row `σ i` of the old.
+`hmin`/`hmax`: the two inputs use the same `xmin`/`xmax` - this is `tsXmin_reorder` when they are given explicitly;
+for the defaults `xpos.min()`/`xpos.max()` it is the permutation invariance of min/max, which is not proved here. -/
+theorem tsetFit_perm (solve : Array (Array K) → Array K → R (Array K)) (inp : TsIn K) (σ : ℕ → ℕ)
+    (hσ : ∀ i, i < inp.xpos.size → σ i < inp.xpos.size)
+    (hmin : tsXmin (inp.reorder σ) = tsXmin inp) (hmax : tsXmax (inp.reorder σ) = tsXmax inp)
+    (o o' : TsOut K) (h : tsetFit solve inp = .ok o) (h' : tsetFit solve (inp.reorder σ) = .ok o')
+    (i : ℕ) (hi : i < inp.xpos.size) :
+    o'.tset.coeff.getD i #[] = o.tset.coeff.getD (σ i) #[] ∧ o'.yfit.getD i #[] = o.yfit.getD (σ i) #[] ∧
+      o'.outmask.getD i #[] = o.outmask.getD (σ i) #[] := by
+  obtain ⟨hshape, -⟩ := tsetFit_ok solve inp o h
+  have h0 : 0 < inp.xpos.size := by omega
+  have hnx : ((inp.reorder σ).xpos.getD 0 #[]).size = (inp.xpos.getD 0 #[]).size := by
+    show ((tab inp.xpos.size fun i => inp.xpos.getD (σ i) #[]).getD 0 #[]).size = _
+    rw [tab_getD, if_pos h0]
+    exact (ts_rows_rect inp hshape (σ 0) (hσ 0 h0)).1
+  refine tsetFit_row_local solve inp _ o o' h h' ⟨rfl, rfl, rfl, rfl, rfl, rfl, hnx, hmin, hmax⟩ (σ i) i (hσ i hi)
+    (by show i < (tab _ _).size; simpa using hi) ?_ ?_ ?_
+  · show (tab inp.xpos.size fun i => inp.xpos.getD (σ i) #[]).getD i #[] = _
+    rw [tab_getD, if_pos hi]
+  · show (tab inp.xpos.size fun i => inp.ypos.getD (σ i) #[]).getD i #[] = _
+    rw [tab_getD, if_pos hi]
+  · unfold tsTempivar
+    rw [hnx]
+    simp only [TsIn.reorder]
+    cases inp.invvar <;> cases inp.inmask <;> simp only [Option.map_some, Option.map_none, tab_getD, hi, if_true]
+
+/-- with `xmin` / `xmax` given explicitly the two hypotheses of `tsetFit_perm` hold -/
+theorem tsXmin_reorder (inp : TsIn K) (σ : ℕ → ℕ) (a b : K) (ha : inp.xmin = some a) (hb : inp.xmax = some b) :
+    tsXmin (inp.reorder σ) = tsXmin inp ∧ tsXmax (inp.reorder σ) = tsXmax inp := by
+  unfold tsXmin tsXmax TsIn.reorder
+  simp [ha, hb]
+
+end iter
+
+section iter2
+variable {K : Type} [Field K] [LinearOrder K] [IsStrictOrderedRing K] [FloorRing K]
+attribute [-instance] Scalar.toAdd Scalar.toSub Scalar.toMul Scalar.toDiv Scalar.toNeg Scalar.toLT Scalar.toLE
+  Scalar.instOfNat Scalar.instOfScientific Scalar.decLt Scalar.decLe
+attribute [local instance] fieldScalar
+open Finset
+
+/-- the call of `func_fit` for trace `i` -/
+noncomputable def tsFitIn (inp : TsIn K) (xvec : Array K) (i : ℕ) : FitIn K :=
+  { x := xvec, y := inp.ypos.getD i #[], ncoeff := inp.ncoeff, invvar := some (tsTempivar inp i), func := inp.func }
+
+/-- **the final coefficients of every trace are the weighted-least-squares optimum over the kept points**: with
+weights `w = invvar * inmask ≥ 0` the coefficient row `i` of the trace set minimises `Σ_j w_j (ypos[i,j] - Σ_k c_k φ_k(xnorm x_ij))²`
+over all coefficient vectors (the kept points are those of non-zero weight: nothing else is ever removed, `rejectCall_none`) -/
+theorem tsetFit_optimum (solve : Array (Array K) → Array K → R (Array K)) (hsolve : SolveContract solve)
+    (inp : TsIn K) (o : TsOut K) (h : tsetFit solve inp = .ok o) (i : ℕ) (hi : i < inp.xpos.size) :
+    ∃ xvec, o.tset.xnorm (inp.xpos.getD i #[]) inp.xjumplo.isSome = .ok xvec ∧
+      ∀ (legarr : Array (Array K)), 2 ≤ (goodIdx (tsTempivar inp i)).length →
+        fitBasis (tsFitIn inp xvec i) (ncfit (tsFitIn inp xvec i) (tsTempivar inp i)) = .ok legarr →
+        (∀ j, j < xvec.size → 0 ≤ at1 (tsTempivar inp i) j) →
+        (∀ k, k < ncfit (tsFitIn inp xvec i) (tsTempivar inp i) →
+          ∑ j ∈ range xvec.size, at2 legarr k j * (at2 legarr k j * at1 (tsTempivar inp i) j) ≠ 0) →
+        ∀ z : ℕ → K,
+          wssr xvec.size (ncfit (tsFitIn inp xvec i) (tsTempivar inp i)) (at2 legarr) (at1 (tsTempivar inp i))
+              (at1 (inp.ypos.getD i #[])) (at1 (o.tset.coeff.getD i #[]))
+            ≤ wssr xvec.size (ncfit (tsFitIn inp xvec i) (tsTempivar inp i)) (at2 legarr) (at1 (tsTempivar inp i))
+              (at1 (inp.ypos.getD i #[])) z := by
+  obtain ⟨xvec, hx, hfit, -⟩ := tsetFit_row_is_funcFit solve inp o h i hi
+  refine ⟨xvec, hx, ?_⟩
+  intro legarr hg hb hpos hnz z
+  have hsz := (funcFit_sizes solve _ _ hfit).2.2 _ rfl
+  have hw : fitWeights (tsFitIn inp xvec i) = .ok (tsTempivar inp i) := by
+    unfold fitWeights tsFitIn
+    dsimp only at hsz ⊢
+    rw [if_neg (by simpa using hsz)]
+    rfl
+  have hia : fitIa (tsFitIn inp xvec i) = .ok (Array.replicate inp.ncoeff true) := rfl
+  have hall : ∀ k, (Array.replicate inp.ncoeff true).getD k true = true := by
+    intro k
+    by_cases hk : k < inp.ncoeff <;> simp [hk]
+  exact funcFit_optimum solve hsolve (tsFitIn inp xvec i) _ hfit _ _ legarr hw hia hg hb hpos
+    (fun k hk _ => hnz k hk) z (fun k _ hf => by rw [hall k] at hf; cases hf)
+
+/-- a point masked by `inmask` or of zero inverse variance has weight 0 in the fit of its trace -/
+theorem tsTempivar_zero (inp : TsIn K) (i j : ℕ) (hj : j < (inp.xpos.getD 0 #[]).size)
+    (h0 : (∃ v, inp.invvar = some v ∧ at2 v i j = 0) ∨ (∃ m, inp.inmask = some m ∧ (m.getD i #[]).getD j false = false)) :
+    at1 (tsTempivar inp i) j = 0 := by
+  unfold tsTempivar
+  rcases h0 with ⟨v, hv, hz⟩ | ⟨m, hm, hz⟩
+  · rw [hv]
+    have hz' : at1 (v.getD i #[]) j = 0 := hz
+    cases inp.inmask <;> simp only [at1_tab _ _ _ hj, hz'] <;> simp [lit0, lit1]
+  · rw [hm]
+    simp only [at1_tab _ _ _ hj, hz]
+    simp [lit0, lit1]
+
+/-- **points of zero weight never influence the coefficients**: replace `ypos` of trace `i` at points where
+`invvar * inmask = 0` by anything (`y'`): the coefficients of the trace still satisfy the weighted normal equations of the
+changed data - which determine them uniquely when the normal matrix is positive definite (`funcFit_exact`'s hypothesis) -/
+theorem tsetFit_zero_weight (solve : Array (Array K) → Array K → R (Array K)) (hsolve : SolveContract solve)
+    (inp : TsIn K) (o : TsOut K) (h : tsetFit solve inp = .ok o) (i : ℕ) (hi : i < inp.xpos.size) :
+    ∃ xvec, o.tset.xnorm (inp.xpos.getD i #[]) inp.xjumplo.isSome = .ok xvec ∧
+      ∀ (legarr : Array (Array K)), 2 ≤ (goodIdx (tsTempivar inp i)).length →
+        fitBasis (tsFitIn inp xvec i) (ncfit (tsFitIn inp xvec i) (tsTempivar inp i)) = .ok legarr →
+        (∀ k, k < ncfit (tsFitIn inp xvec i) (tsTempivar inp i) →
+          ∑ j ∈ range xvec.size, at2 legarr k j * (at2 legarr k j * at1 (tsTempivar inp i) j) ≠ 0) →
+        ∀ y' : ℕ → K, (∀ j, j < xvec.size → at1 (tsTempivar inp i) j ≠ 0 → y' j = at1 (inp.ypos.getD i #[]) j) →
+          ∀ k, k < ncfit (tsFitIn inp xvec i) (tsTempivar inp i) →
+            ∑ j ∈ range xvec.size, at1 (tsTempivar inp i) j * at2 legarr k j *
+              (y' j - ∑ l ∈ range (ncfit (tsFitIn inp xvec i) (tsTempivar inp i)),
+                at2 legarr l j * at1 (o.tset.coeff.getD i #[]) l) = 0 := by
+  obtain ⟨xvec, hx, hfit, -⟩ := tsetFit_row_is_funcFit solve inp o h i hi
+  refine ⟨xvec, hx, ?_⟩
+  intro legarr hg hb hnz y' hy' k hk
+  have hsz := (funcFit_sizes solve _ _ hfit).2.2 _ rfl
+  have hw : fitWeights (tsFitIn inp xvec i) = .ok (tsTempivar inp i) := by
+    unfold fitWeights tsFitIn
+    dsimp only at hsz ⊢
+    rw [if_neg (by simpa using hsz)]
+    rfl
+  have hia : fitIa (tsFitIn inp xvec i) = .ok (Array.replicate inp.ncoeff true) := rfl
+  have hall : ∀ k, (Array.replicate inp.ncoeff true).getD k true = true := by
+    intro k
+    by_cases hk : k < inp.ncoeff <;> simp [hk]
+  exact funcFit_zero_weight solve hsolve (tsFitIn inp xvec i) _ hfit _ _ legarr hw hia hg hb
+    (fun k hk _ => hnz k hk) y' hy' k hk (hall k)
+
+
+/-! ## TraceSet from a FITS record -/
+
+/-- **reading back what was stored evaluates identically**: the record a trace set is stored as (`toRec`) is accepted by
+the FITS constructor, and the trace set read back gives the same `xy` for every `xpos` (or the default grid) and either
+`ignore_jump` - provided a set that has `xjumplo` also has `xjumphi` and `xjumpval` (as every BOSS file does) -/
+theorem ofRec_toRec (t : TSet K) (hj : t.xjumplo.isSome = true → t.xjumphi.isSome = true ∧ t.xjumpval.isSome = true) :
+    ∃ t', TSet.ofRec t.toRec = .ok t' ∧ t'.coeff = t.coeff ∧ t'.ncoeff = t.ncoeff ∧ t'.func = t.func ∧
+      t'.xmin = t.xmin ∧ t'.xmax = t.xmax ∧ ∀ xpos ign, t'.xy xpos ign = t.xy xpos ign := by
+  obtain ⟨func, xmin, xmax, coeff, ncoeff, lo, hi, v⟩ := t
+  cases lo with
+  | some lo =>
+    obtain ⟨h1, h2⟩ := hj rfl
+    dsimp only at h1 h2
+    obtain ⟨hi, rfl⟩ := Option.isSome_iff_exists.mp h1
+    obtain ⟨v, rfl⟩ := Option.isSome_iff_exists.mp h2
+    refine ⟨⟨func, xmin, xmax, coeff, ncoeff, some lo, some hi, some v⟩, ?_, rfl, rfl, rfl, rfl, rfl, fun _ _ => rfl⟩
+    simp [TSet.ofRec, TSet.toRec, FitsRec.get, FitsRec.names, Cell.asNum, Cell.asStr, bind, Except.bind, pure, Except.pure, List.find?]
+  | none =>
+    refine ⟨⟨func, xmin, xmax, coeff, ncoeff, none, none, none⟩, ?_, rfl, rfl, rfl, rfl, rfl, fun xpos ign => ?_⟩
+    · simp [TSet.ofRec, TSet.toRec, FitsRec.get, FitsRec.names, Cell.asNum, Cell.asStr, bind, Except.bind, pure, Except.pure, List.find?]
+    · have hrow : (⟨func, xmin, xmax, coeff, ncoeff, none, none, none⟩ : TSet K).xyRow =
+          (⟨func, xmin, xmax, coeff, ncoeff, none, hi, v⟩ : TSet K).xyRow := by
+        funext xp dj i
+        cases dj <;> simp [TSet.xyRow, TSet.xnorm, jumpOf]
+      simp only [TSet.xy, TSet.xyPos, TSet.grid, TSet.nx, hrow]
+
+
+/-- non-vacuity of `ofRec_toRec` / `tsetFit_perm`: a BOSS-style set (all three jump fields) meets the hypothesis, and
+explicit `xmin`/`xmax` discharge the two hypotheses of `tsetFit_perm` (`tsXmin_reorder`) -/
+example : ∃ t', TSet.ofRec (⟨"legendre", 0, 4127, #[#[1, 2]], 2, some 2055.5, some 2057.5, some 0.25⟩ : TSet ℚ).toRec = .ok t' ∧
+    t'.coeff = #[#[1, 2]] := by
+  obtain ⟨t', h, hc, -⟩ := ofRec_toRec (⟨"legendre", 0, 4127, #[#[1, 2]], 2, some 2055.5, some 2057.5, some 0.25⟩ : TSet ℚ)
+    (fun _ => ⟨rfl, rfl⟩)
+  exact ⟨t', h, hc⟩
+
+end iter2
+
+/-! ## `xpos.min()` / `xpos.max()` do not see the order of the traces: `tsetFit_perm` without hypotheses -/
+
+section permmin
+variable {K : Type} [Field K] [LinearOrder K] [IsStrictOrderedRing K] [FloorRing K]
+attribute [local instance] fieldScalar
+
+theorem foldMin_spec (xs : List K) : ∀ x : K,
+    (xs.foldl (fun m v => if v < m then v else m) x ∈ x :: xs) ∧
+    ∀ v ∈ x :: xs, xs.foldl (fun m v => if v < m then v else m) x ≤ v := by
+  induction xs with
+  | nil => intro x; simp
+  | cons a xs ih =>
+    intro x
+    simp only [List.foldl_cons]
+    obtain ⟨h1, h2⟩ := ih (if a < x then a else x)
+    refine ⟨?_, ?_⟩
+    · rcases List.mem_cons.mp h1 with h | h
+      · rw [h]; split <;> simp
+      · simp [h]
+    · intro v hv
+      have h0 := h2 _ (List.mem_cons_self)
+      rcases List.mem_cons.mp hv with h | h
+      · subst h
+        refine le_trans h0 ?_
+        split
+        · rename_i hlt; exact le_of_lt hlt
+        · exact le_refl _
+      · rcases List.mem_cons.mp h with h | h
+        · subst h
+          refine le_trans h0 ?_
+          split
+          · exact le_refl _
+          · rename_i hlt; exact le_of_not_gt hlt
+        · exact h2 v (List.mem_cons_of_mem _ h)
+
+theorem foldMax_spec (xs : List K) : ∀ x : K,
+    (xs.foldl (fun m v => if m < v then v else m) x ∈ x :: xs) ∧
+    ∀ v ∈ x :: xs, v ≤ xs.foldl (fun m v => if m < v then v else m) x := by
+  induction xs with
+  | nil => intro x; simp
+  | cons a xs ih =>
+    intro x
+    simp only [List.foldl_cons]
+    obtain ⟨h1, h2⟩ := ih (if x < a then a else x)
+    refine ⟨?_, ?_⟩
+    · rcases List.mem_cons.mp h1 with h | h
+      · rw [h]; split <;> simp
+      · simp [h]
+    · intro v hv
+      have h0 := h2 _ (List.mem_cons_self)
+      rcases List.mem_cons.mp hv with h | h
+      · subst h
+        refine le_trans ?_ h0
+        split
+        · rename_i hlt; exact le_of_lt hlt
+        · exact le_refl _
+      · rcases List.mem_cons.mp h with h | h
+        · subst h
+          refine le_trans ?_ h0
+          split
+          · exact le_refl _
+          · rename_i hlt; exact le_of_not_gt hlt
+        · exact h2 v (List.mem_cons_of_mem _ h)
+
+/-- `xpos.min()` depends only on the set of values: two arrays with the same elements have the same minimum -/
+theorem minAll_congr (a b : Array (Array K))
+    (h : ∀ v, v ∈ a.toList.flatMap Array.toList ↔ v ∈ b.toList.flatMap Array.toList) : minAll a = minAll b := by
+  unfold minAll
+  cases ha : a.toList.flatMap Array.toList with
+  | nil =>
+    cases hb : b.toList.flatMap Array.toList with
+    | nil => rfl
+    | cons y ys => have := (h y).mpr (by rw [hb]; simp); rw [ha] at this; simp at this
+  | cons x xs =>
+    cases hb : b.toList.flatMap Array.toList with
+    | nil => have := (h x).mp (by rw [ha]; simp); rw [hb] at this; simp at this
+    | cons y ys =>
+      obtain ⟨m1, l1⟩ := foldMin_spec xs x
+      obtain ⟨m2, l2⟩ := foldMin_spec ys y
+      rw [ha, hb] at h
+      show Except.ok _ = Except.ok _
+      congr 1
+      exact le_antisymm (l1 _ ((h _).mpr m2)) (l2 _ ((h _).mp m1))
+
+theorem maxAll_congr (a b : Array (Array K))
+    (h : ∀ v, v ∈ a.toList.flatMap Array.toList ↔ v ∈ b.toList.flatMap Array.toList) : maxAll a = maxAll b := by
+  unfold maxAll
+  cases ha : a.toList.flatMap Array.toList with
+  | nil =>
+    cases hb : b.toList.flatMap Array.toList with
+    | nil => rfl
+    | cons y ys => have := (h y).mpr (by rw [hb]; simp); rw [ha] at this; simp at this
+  | cons x xs =>
+    cases hb : b.toList.flatMap Array.toList with
+    | nil => have := (h x).mp (by rw [ha]; simp); rw [hb] at this; simp at this
+    | cons y ys =>
+      obtain ⟨m1, l1⟩ := foldMax_spec xs x
+      obtain ⟨m2, l2⟩ := foldMax_spec ys y
+      rw [ha, hb] at h
+      show Except.ok _ = Except.ok _
+      congr 1
+      exact le_antisymm (l2 _ ((h _).mp m1)) (l1 _ ((h _).mpr m2))
+
+omit [Field K] [LinearOrder K] [IsStrictOrderedRing K] [FloorRing K] in
+/-- re-ordering the rows by a permutation of the row numbers keeps the set of elements -/
+theorem reorder_mem (a : Array (Array K)) (σ : ℕ → ℕ) (hσ : ∀ i, i < a.size → σ i < a.size)
+    (hsurj : ∀ k, k < a.size → ∃ i, i < a.size ∧ σ i = k) (v : K) :
+    v ∈ (tab a.size fun i => a.getD (σ i) #[]).toList.flatMap Array.toList ↔ v ∈ a.toList.flatMap Array.toList := by
+  simp only [List.mem_flatMap, Array.mem_toList_iff]
+  constructor
+  · rintro ⟨row, hrow, hv⟩
+    obtain ⟨i, hi, rfl⟩ := Array.mem_iff_getElem.mp hrow
+    have hi' : i < a.size := by simpa using hi
+    refine ⟨a.getD (σ i) #[], ?_, ?_⟩
+    · have := hσ i hi'
+      simp [Array.getD, this]
+    · simpa [tab] using hv
+  · rintro ⟨row, hrow, hv⟩
+    obtain ⟨k, hk, rfl⟩ := Array.mem_iff_getElem.mp hrow
+    obtain ⟨i, hi, hik⟩ := hsurj k hk
+    refine ⟨a.getD (σ i) #[], ?_, ?_⟩
+    · apply Array.mem_iff_getElem.mpr
+      refine ⟨i, by simpa using hi, ?_⟩
+      simp [tab]
+    · simpa [Array.getD, hik, hk] using hv
+
+/-- **the hypotheses of `tsetFit_perm` hold for every permutation of the traces**, also with the default
+`xmin = xpos.min()`, `xmax = xpos.max()` -/
+theorem tsXminmax_reorder (inp : TsIn K) (σ : ℕ → ℕ) (hσ : ∀ i, i < inp.xpos.size → σ i < inp.xpos.size)
+    (hsurj : ∀ k, k < inp.xpos.size → ∃ i, i < inp.xpos.size ∧ σ i = k) :
+    tsXmin (inp.reorder σ) = tsXmin inp ∧ tsXmax (inp.reorder σ) = tsXmax inp := by
+  unfold tsXmin tsXmax
+  have e1 : (inp.reorder σ).xmin = inp.xmin := rfl
+  have e2 : (inp.reorder σ).xmax = inp.xmax := rfl
+  rw [e1, e2]
+  have hm := reorder_mem inp.xpos σ hσ hsurj
+  refine ⟨?_, ?_⟩
+  · cases inp.xmin with
+    | some v => rfl
+    | none => exact minAll_congr _ _ hm
+  · cases inp.xmax with
+    | some v => rfl
+    | none => exact maxAll_congr _ _ hm
+
+/-- **permuting the traces permutes the rows of the result** - no further hypothesis: any `σ` that permutes the trace
+numbers, explicit or default `xmin`/`xmax` -/
+theorem tsetFit_perm_full (solve : Array (Array K) → Array K → R (Array K)) (inp : TsIn K) (σ : ℕ → ℕ)
+    (hσ : ∀ i, i < inp.xpos.size → σ i < inp.xpos.size)
+    (hsurj : ∀ k, k < inp.xpos.size → ∃ i, i < inp.xpos.size ∧ σ i = k)
+    (o o' : TsOut K) (h : tsetFit solve inp = .ok o) (h' : tsetFit solve (inp.reorder σ) = .ok o')
+    (i : ℕ) (hi : i < inp.xpos.size) :
+    o'.tset.coeff.getD i #[] = o.tset.coeff.getD (σ i) #[] ∧ o'.yfit.getD i #[] = o.yfit.getD (σ i) #[] ∧
+      o'.outmask.getD i #[] = o.outmask.getD (σ i) #[] :=
+  tsetFit_perm solve inp σ hσ (tsXminmax_reorder inp σ hσ hsurj).1 (tsXminmax_reorder inp σ hσ hsurj).2 o o' h h' i hi
+
+/-- non-vacuity of `tsetFit_perm_full`: swapping two traces (`σ i = 1 - i`) meets both hypotheses on `σ` -/
+example (inp : TsIn ℚ) (h2 : inp.xpos.size = 2) :
+    (∀ i, i < inp.xpos.size → (fun i => 1 - i) i < inp.xpos.size) ∧
+    (∀ k, k < inp.xpos.size → ∃ i, i < inp.xpos.size ∧ (fun i => 1 - i) i = k) := by
+  rw [h2]
+  refine ⟨fun i _ => by dsimp only; omega, fun k hk => ⟨1 - k, by omega, by dsimp only; omega⟩⟩
+
+end permmin
+end PydlVerif.C13
